@@ -16,6 +16,7 @@ import (
 	"go/token"
 	"go/types"
 	"math/big"
+	"math/bits"
 	"strings"
 )
 
@@ -31,6 +32,7 @@ const (
 	VNil
 	VOpaque // a non-nil value whose content is irrelevant (error objects)
 	VList   // an immutable table (package-level composite literal of constants)
+	VStruct // an immutable record inside such a table (fields in F)
 )
 
 type Val struct {
@@ -39,6 +41,7 @@ type Val struct {
 	S string
 	R *big.Rat
 	T []Val
+	F map[string]Val
 }
 
 func (v Val) String() string {
@@ -473,9 +476,6 @@ func (e *cEnv) exec(s ast.Stmt) (ctrl, Val, error) {
 		}
 		return cNext, Val{}, nil
 	case *ast.ForStmt:
-		if !e.loops {
-			return cNext, Val{}, undecidedf(s, "loop outside the fragment language")
-		}
 		if st.Init != nil {
 			if ct, v, err := e.exec(st.Init); err != nil || ct != cNext {
 				return ct, v, err
@@ -511,6 +511,57 @@ func (e *cEnv) exec(s ast.Stmt) (ctrl, Val, error) {
 				if ct, v, err := e.exec(st.Post); err != nil || ct != cNext {
 					return ct, v, err
 				}
+			}
+		}
+		return cNext, Val{}, nil
+	case *ast.RangeStmt:
+		x, err := e.eval(st.X)
+		if err != nil {
+			return cNext, Val{}, err
+		}
+		var n int
+		switch x.K {
+		case VList:
+			n = len(x.T)
+		case VStr:
+			n = len(x.S)
+		case VInt:
+			n = int(x.I)
+		default:
+			return cNext, Val{}, undecidedf(s, "range over %s", x)
+		}
+		if n > 4096 {
+			return cNext, Val{}, undecidedf(s, "range too long for the finite model")
+		}
+		for i := 0; i < n; i++ {
+			if st.Key != nil {
+				if err := e.assign(st.Key, vInt(int64(i)), st.Tok == token.DEFINE); err != nil {
+					return cNext, Val{}, err
+				}
+			}
+			if st.Value != nil {
+				var v Val
+				switch x.K {
+				case VList:
+					v = x.T[i]
+				case VStr:
+					v = vInt(int64(x.S[i])) // byte-wise: only ASCII tables are ranged over
+				default:
+					return cNext, Val{}, undecidedf(s, "range value over an integer")
+				}
+				if err := e.assign(st.Value, v, st.Tok == token.DEFINE); err != nil {
+					return cNext, Val{}, err
+				}
+			}
+			ct, v, err := e.execBlock(st.Body.List)
+			if err != nil {
+				return cNext, Val{}, err
+			}
+			if ct == cReturn {
+				return ct, v, nil
+			}
+			if ct == cBreak {
+				break
 			}
 		}
 		return cNext, Val{}, nil
@@ -748,7 +799,9 @@ func (e *cEnv) eval(x ast.Expr) (Val, error) {
 		}
 		if pv, isVar := obj.(*types.Var); isVar && obj.Parent() == e.p.P.Types.Scope() {
 			// package-level table of constants (never written: R14.globals)
-			if _, isSlice := pv.Type().Underlying().(*types.Slice); isSlice {
+			_, isSlice := pv.Type().Underlying().(*types.Slice)
+			_, isArray := pv.Type().Underlying().(*types.Array)
+			if isSlice || isArray {
 				if init := e.p.pkgVarInit(pv); init != nil {
 					if lv, ok := e.p.listValue(init); ok {
 						return lv, nil
@@ -765,6 +818,18 @@ func (e *cEnv) eval(x ast.Expr) (Val, error) {
 				return Val{}, undecidedf(x, "receiver byte read without a byte model")
 			}
 			return vInt(int64(e.bytes[idx])), nil
+		}
+		if sel := info.Selections[n]; sel != nil && sel.Kind() == types.FieldVal {
+			base, err := e.eval(n.X)
+			if err != nil {
+				return Val{}, err
+			}
+			if base.K == VStruct {
+				if v, ok := base.F[n.Sel.Name]; ok {
+					return v, nil
+				}
+			}
+			return Val{}, undecidedf(x, "field %s of %s", n.Sel.Name, base)
 		}
 		return Val{}, undecidedf(x, "selector outside the fragment language")
 	case *ast.UnaryExpr:
@@ -849,6 +914,9 @@ func (e *cEnv) eval(x ast.Expr) (Val, error) {
 		}
 		return e.binop(n.Op, a, b, t, x)
 	case *ast.CompositeLit:
+		if lv, ok := e.p.listValue(n); ok {
+			return lv, nil
+		}
 		return Val{K: VOpaque, S: types.ExprString(n)}, nil
 	case *ast.IndexExpr:
 		a, err := e.eval(n.X)
@@ -879,6 +947,27 @@ func (e *cEnv) eval(x ast.Expr) (Val, error) {
 		a, err := e.eval(n.X)
 		if err != nil {
 			return Val{}, err
+		}
+		if a.K == VList && !n.Slice3 {
+			lo, hi := int64(0), int64(len(a.T))
+			if n.Low != nil {
+				v, err := e.eval(n.Low)
+				if err != nil {
+					return Val{}, err
+				}
+				lo = v.I
+			}
+			if n.High != nil {
+				v, err := e.eval(n.High)
+				if err != nil {
+					return Val{}, err
+				}
+				hi = v.I
+			}
+			if lo < 0 || hi > int64(len(a.T)) || lo > hi {
+				return Val{}, &panicked{pos: x.Pos(), msg: fmt.Sprintf("slice bounds [%d:%d] out of range of a table of length %d", lo, hi, len(a.T))}
+			}
+			return Val{K: VList, T: a.T[lo:hi]}, nil
 		}
 		if a.K != VStr || n.Slice3 {
 			return Val{}, undecidedf(x, "slice expression outside the fragment language")
@@ -981,6 +1070,9 @@ func (e *cEnv) evalCall(n *ast.CallExpr) (Val, error) {
 			return v, err
 		}
 	}
+	if v, ok, err := stdlibSummary(fn, args, n); ok || err != nil {
+		return v, err
+	}
 	if fn.Pkg() != nil && fn.Pkg().Path() == "math" {
 		switch fn.Name() {
 		case "NaN":
@@ -1080,14 +1172,49 @@ func exactConst(info *types.Info, x ast.Expr) (*big.Rat, bool) {
 	return r, ok
 }
 
-// listValue converts a composite literal of constants (nested) into a VList.
+// listValue converts a composite literal of constants (nested lists, arrays
+// and structs) into a VList / VStruct.
 func (p *Pkg) listValue(e ast.Expr) (Val, bool) {
 	cl, ok := e.(*ast.CompositeLit)
 	if !ok {
 		if tv, ok := p.Info.Types[e]; ok && tv.Value != nil {
+			if isFloat(tv.Type) {
+				if r, ok := exactConst(p.Info, e); ok {
+					return Val{K: VRat, R: r}, true
+				}
+			}
 			return constVal(tv)
 		}
 		return Val{}, false
+	}
+	tv, hasT := p.Info.Types[cl]
+	if hasT {
+		if st, ok := tv.Type.Underlying().(*types.Struct); ok {
+			fields := map[string]Val{}
+			for i := 0; i < st.NumFields(); i++ {
+				fields[st.Field(i).Name()] = zeroOf(st.Field(i).Type())
+			}
+			for i, el := range cl.Elts {
+				name := ""
+				v := el
+				if kv, ok := el.(*ast.KeyValueExpr); ok {
+					id, ok := kv.Key.(*ast.Ident)
+					if !ok {
+						return Val{}, false
+					}
+					name = id.Name
+					v = kv.Value
+				} else if i < st.NumFields() {
+					name = st.Field(i).Name()
+				}
+				c, ok := p.listValue(v)
+				if !ok {
+					return Val{}, false
+				}
+				fields[name] = c
+			}
+			return Val{K: VStruct, F: fields}, true
+		}
 	}
 	var out []Val
 	idx := 0
@@ -1111,5 +1238,63 @@ func (p *Pkg) listValue(e ast.Expr) (Val, bool) {
 		out[idx] = c
 		idx++
 	}
+	// fixed-size arrays are zero-filled up to their length
+	if hasT {
+		if at, ok := tv.Type.Underlying().(*types.Array); ok {
+			for int64(len(out)) < at.Len() {
+				out = append(out, zeroOf(at.Elem()))
+			}
+		}
+	}
 	return Val{K: VList, T: out}, true
+}
+
+// stdlibSummary: exact summaries of a few pure, non-allocating library
+// functions that refactorings substitute for hand-written loops.
+func stdlibSummary(fn *types.Func, args []Val, at ast.Node) (Val, bool, error) {
+	if fn.Pkg() == nil {
+		return Val{}, false, nil
+	}
+	path, name := fn.Pkg().Path(), fn.Name()
+	switch {
+	case path == "slices" && (name == "Index" || name == "Contains") && len(args) == 2 && args[0].K == VList:
+		for i, v := range args[0].T {
+			if eq, err := valEq(v, args[1], at); err == nil && eq {
+				if name == "Contains" {
+					return vBool(true), true, nil
+				}
+				return vInt(int64(i)), true, nil
+			}
+		}
+		if name == "Contains" {
+			return vBool(false), true, nil
+		}
+		return vInt(-1), true, nil
+	case path == "bytes" && name == "IndexByte" && len(args) == 2 && args[0].K == VList && args[1].K == VInt:
+		for i, v := range args[0].T {
+			if v.K == VInt && v.I == args[1].I {
+				return vInt(int64(i)), true, nil
+			}
+		}
+		return vInt(-1), true, nil
+	case path == "strings" && name == "IndexByte" && len(args) == 2 && args[0].K == VStr && args[1].K == VInt:
+		return vInt(int64(strings.IndexByte(args[0].S, byte(args[1].I)))), true, nil
+	case path == "strings" && name == "HasPrefix" && len(args) == 2 && args[0].K == VStr && args[1].K == VStr:
+		return vBool(strings.HasPrefix(args[0].S, args[1].S)), true, nil
+	case path == "strings" && name == "Cut" && len(args) == 2 && args[0].K == VStr && args[1].K == VStr:
+		a, b, ok := strings.Cut(args[0].S, args[1].S)
+		return Val{K: VTuple, T: []Val{vStr(a), vStr(b), vBool(ok)}}, true, nil
+	case path == "math/bits" && len(args) == 1 && args[0].K == VInt:
+		switch name {
+		case "TrailingZeros32":
+			return vInt(int64(bits.TrailingZeros32(uint32(args[0].I)))), true, nil
+		case "TrailingZeros64", "TrailingZeros":
+			return vInt(int64(bits.TrailingZeros64(uint64(args[0].I)))), true, nil
+		case "OnesCount32":
+			return vInt(int64(bits.OnesCount32(uint32(args[0].I)))), true, nil
+		case "Len8":
+			return vInt(int64(bits.Len8(uint8(args[0].I)))), true, nil
+		}
+	}
+	return Val{}, false, nil
 }
